@@ -774,7 +774,11 @@ func runShared(r *common.Rand, tier string, o *common.Out, replay string) {
 		p := strings.Split(replay, "|")
 		lv, _ := strconv.Atoi(p[1])
 		sz, _ := strconv.Atoi(p[2])
-		zipOwnCase(o, "replay", lv, sz)
+		kind := "gzip"
+		if len(p) > 3 {
+			kind = p[3]
+		}
+		zipOwnCaseOf(o, "replay", kind, lv, sz, "frame-not-sent")
 		return
 	}
 	if replay != "" {
@@ -894,11 +898,16 @@ func zipText(level, n, salt int) []byte {
 // (level, size: the payload that went through the compressor just before; it decides what scratch space is lying
 // around).  On one P and without a collection in between, a scratch buffer that is handed out and also kept for the
 // next caller is the next caller's at once.
-func zipOwnCase(o *common.Out, id string, level, size int) {
-	line := fmt.Sprintf("zipown|%d|%d", level, size)
+var zipKinds = map[string]protocol.Compressor{"gzip": protocol.Compressors[protocol.Gzip], "snappy": &protocol.SnappyCompressor{},
+	"raw": &protocol.RawDataCompressor{}}
+
+func zipOwnCase(o *common.Out, id string, level, size int) { zipOwnCaseOf(o, id, "gzip", level, size, "frame-not-sent") }
+
+func zipOwnCaseOf(o *common.Out, id string, kind string, level, size int, sig string) {
+	line := fmt.Sprintf("zipown|%d|%d|%s", level, size, kind)
 	old := runtime.GOMAXPROCS(1)
 	defer runtime.GOMAXPROCS(old)
-	gz := protocol.Compressors[protocol.Gzip]
+	gz := zipKinds[kind]
 	if _, err := gz.Zip(zipText(level, size, 1)); err != nil {
 		o.Fail(id, "rig", "zip failed: "+err.Error(), line)
 		return
@@ -916,11 +925,11 @@ func zipOwnCase(o *common.Out, id string, level, size int) {
 	}
 	for i := range own {
 		if !bytes.Equal(own[i], snap[i]) {
-			o.Fail(id, "frame-not-sent", fmt.Sprintf("compressed payload %d (%d bytes) changed under its encoder while the compressor served the next one (before it: %d bytes of level-%d text)", i, len(snap[i]), size, level), line)
+			o.Fail(id, sig, fmt.Sprintf("compressed payload %d (%d bytes) changed under its encoder while the compressor served the next one (before it: %d bytes of level-%d text)", i, len(snap[i]), size, level), line)
 			return
 		}
 		if back, err := gz.Unzip(own[i]); err != nil || !bytes.Equal(back, src[i]) {
-			o.Fail(id, "frame-not-sent", fmt.Sprintf("compressed payload %d does not inflate to what was compressed (%v)", i, err), line)
+			o.Fail(id, sig, fmt.Sprintf("compressed payload %d does not inflate to what was compressed (%v)", i, err), line)
 			return
 		}
 	}
@@ -928,12 +937,23 @@ func zipOwnCase(o *common.Out, id string, level, size int) {
 	o.Count("compressor-ownership")
 }
 
-func zipOwnProbe(o *common.Out) {
+func zipOwnProbe(o *common.Out) { zipOwnProbeOf(o, "frame-not-sent") }
+
+func zipOwnProbeOf(o *common.Out, sig string) {
 	n := 0
 	for level := 0; level < 4; level++ {
 		for size := 600; size < 1500000; size = size*4/3 + 17 {
-			zipOwnCase(o, fmt.Sprintf("zipown%d", n), level, size)
+			zipOwnCaseOf(o, fmt.Sprintf("zipown%d", n), "gzip", level, size, sig)
 			n++
+		}
+	}
+	// the compressors an application registers itself
+	for _, kind := range []string{"snappy", "raw"} {
+		for level := 0; level < 4; level++ {
+			for _, size := range []int{0, 700, 5000, 70000, 300000} {
+				zipOwnCaseOf(o, fmt.Sprintf("zipown%d", n), kind, level, size, sig)
+				n++
+			}
 		}
 	}
 }
